@@ -9,7 +9,7 @@ wrappers; the model predicts the gate / converter outcome from a copy of the bot
 property oracle ("no effect other than an error reply; nothing at all when ignored") is evaluated
 on the implementation alone: state snapshot before = after, the command body did not run, the
 output is at most one error reply."""
-import io, json, os, re, sys, threading, time, warnings
+import contextlib, io, json, os, re, sys, threading, time, warnings
 warnings.filterwarnings('ignore', category=SyntaxWarning)
 from vlib import wire, rng, leanbuild, verdict, bot, VERIF
 from vlib.verdict import Case
@@ -225,6 +225,9 @@ ROLES = {
     'anti':     'ant!a@anti.host',
 }
 
+DEFAULT_CAPS = []
+ROLE_USER = {'owner': 'vown', 'admin': 'vadm', 'chanop': 'vop', 'plain': 'vreg', 'secure': 'vsec', 'anti': 'vanti', 'ignored': 'vign'}
+
 class World(object):
     pass
 
@@ -259,8 +262,10 @@ def setup_world(b):
         b.conf.supybot.capabilities().add(c)
     for ch in (CHAN, OTHERCHAN):
         c = ircdb.channels.getChannel(ch); c.addCapability('-vtcap'); ircdb.channels.setChannel(ch, c)
+    DEFAULT_CAPS[:] = sorted(set.__iter__(b.conf.supybot.capabilities()))
     ircdb.ignores.add('igd!*@igd.host', 0)
     ircdb.ignores.add('old!*@*', 1)          # expired long ago
+    b.conf.supybot.commands.allowShell.setValue(False)
     b.conf.supybot.commands.nested.pipeSyntax.setValue(True)
     b.conf.supybot.reply.whenAddressedBy.nick.atEnd.setValue(True)
     return w
@@ -350,7 +355,7 @@ def classify(msgs):
         mm = NOCAP.search(t)
         if mm:
             kinds.append(('nocap', mm.group(1)))
-        elif 'Error: ' in t:
+        elif 'Error: ' in t or 'An error has occurred and has been logged' in t:
             kinds.append(('error', t))
         elif re.search(r'\(\x02[^\x02]*\x02\) -- ', t):
             kinds.append(('help', t))
@@ -388,7 +393,7 @@ FORMS = ['char', 'nick', 'private', 'atend']
 WRAPPERS = ['direct', 'qualified', 'nested', 'piped', 'aka', 'alias', 'apply', 'let', 'cif']
 WRAPPER_CMDS = {('Utilities', ('echo',)), ('Utilities', ('apply',)), ('Utilities', ('let',)),
                 ('Conditional', ('cif',)), ('Conditional', ('ceq',)), ('Aka', ('vtrun',)), ('Alias', ('vtrun2',)),
-                ('Scheduler', ('add',))}
+                ('Scheduler', ('add',)), ('Scheduler', ('scheduler', 'add'))}
 
 def quote(a):
     return '"%s"' % a.replace('\\', '\\\\').replace('"', '\\"') if (not a or any(c in a for c in ' "[]|')) else a
@@ -423,6 +428,8 @@ def command_text(plugin, path, args, wrapper, qualified):
         text = 'let zq = 1 in %s' % quote(core)
     elif wrapper == 'cif':
         text = 'cif [ceq 1 1] %s "echo no"' % quote(core)
+    elif wrapper == 'scheduled':
+        text = 'scheduler add 5 %s' % quote(core)
     else:
         raise ValueError(wrapper)
     return text, cmd, a
@@ -628,7 +635,27 @@ def explore(ctx, b, w, table, required, n_extra):
             sc.setup = ('default-off-positive', None, '.'.join(full))
             scen.append(sc)
 
+    # replayed later by the scheduler: the stored msg is the scheduling caller's; the capability is
+    # re-checked when the event fires (also after the caller lost it in between)
+    if 'Scheduler' in have:
+        sched_rows = [x for x in rows if x[0] in ('Owner', 'Admin', 'VtGate') or x in req_by_row]
+        if not ctx.thorough:
+            sched_rows = [x for i, x in enumerate(sched_rows) if (i + ctx.seed) % 4 == 0 or x[0] == 'VtGate']
+        for i, (plugin, path) in enumerate(sched_rows):
+            m = loaded[(plugin, path)]
+            spec, ae = row_spec(plugin, path, m)
+            for role in (['plain', 'chanop', 'admin', 'owner', 'secure'] if ctx.thorough else [['plain', 'chanop', 'admin', 'secure'][i % 4], 'owner']):
+                sc = Scenario(plugin=plugin, path=path, spec=spec, allow_extra=ae, role=role, form=['char', 'private'][i % 2],
+                              wrapper='scheduled', args=[[], ['foo'], [CHAN, 'foo']][i % 3], kind='sched')
+                sc.setup = ('sched', role, False)
+                scen.append(sc)
+            sc = Scenario(plugin=plugin, path=path, spec=spec, allow_extra=ae, role='owner', form='char', wrapper='scheduled', args=[], kind='sched')
+            sc.setup = ('sched', 'owner', True)      # the owner loses `owner` before the event fires
+            scen.append(sc)
+
     # ---------- run ----------
+    b.drivers._drivers.setdefault('vt-dummy', object())     # schedule.run() sleeps when it is the only driver
+    b.drivers._drivers.setdefault('vt-dummy2', object())
     class _Fake(object):
         pass
     fake = _Fake(); fake.irc = irc
@@ -655,14 +682,17 @@ def explore(ctx, b, w, table, required, n_extra):
                 def un():
                     u2 = user_by_name(b, 'vanti'); u2.removeCapability(cap); ircdb.users.setUser(u2)
                 undo.append(un)
+            elif holder == 'chan' and set.__contains__(ircdb.channels.getChannel(CHAN).capabilities, anti):
+                pass        # already there (the channel's default-off anti-capabilities): nothing to add or undo
             elif holder == 'chan':
                 c = ircdb.channels.getChannel(CHAN); c.addCapability(anti); ircdb.channels.setChannel(CHAN, c)
                 def un():
                     c2 = ircdb.channels.getChannel(CHAN); c2.removeCapability(anti); ircdb.channels.setChannel(CHAN, c2)
                 undo.append(un)
             elif holder == 'defaults':
-                conf.supybot.capabilities().add(anti)
-                undo.append(lambda: conf.supybot.capabilities().remove(anti))
+                if anti not in set.__iter__(conf.supybot.capabilities()) and not set.__contains__(conf.supybot.capabilities(), anti):
+                    conf.supybot.capabilities().add(anti)
+                    undo.append(lambda: conf.supybot.capabilities().remove(anti))
         elif what in ('default-off', 'default-off-positive'):
             conf.supybot.capabilities.default.setValue(False)
             undo.append(lambda: conf.supybot.capabilities.default.setValue(True))
@@ -670,6 +700,13 @@ def explore(ctx, b, w, table, required, n_extra):
                 u = user_by_name(b, 'vanti'); u.addCapability(name); ircdb.users.setUser(u)
                 def un():
                     u2 = user_by_name(b, 'vanti'); u2.removeCapability(name); ircdb.users.setUser(u2)
+                undo.append(un)
+        elif what == 'sched':
+            uname = ROLE_USER.get(holder)
+            if uname and holder != 'owner':
+                u = user_by_name(b, uname); u.addCapability('scheduler.add'); ircdb.users.setUser(u)
+                def un():
+                    u2 = user_by_name(b, uname); u2.removeCapability('scheduler.add'); ircdb.users.setUser(u2)
                 undo.append(un)
         def undo_all():
             for f in reversed(undo):
@@ -708,6 +745,12 @@ def explore(ctx, b, w, table, required, n_extra):
                 reasons = ['capabilities.default is off and the caller holds nothing']
             elif sc.setup[0] == 'default-off':
                 reasons = expected_deny(plugin, path, sc.spec, sc.role, chk_chan)
+        elif sc.kind == 'sched':
+            reasons = expected_deny(plugin, path, sc.spec, sc.role if not sc.setup[2] else 'plain', chk_chan)
+            if sc.setup[2]:
+                reasons = ['the scheduling caller lost the owner capability before the event fired'] + reasons
+                if not expected_deny(plugin, path, sc.spec, 'plain', chk_chan):
+                    reasons = []
         silent = sc.role in ('ignored', 'ignoredb')
         sc.expect_deny = bool(reasons) and not silent
         sc.expect_silent = silent
@@ -716,6 +759,7 @@ def explore(ctx, b, w, table, required, n_extra):
         real = sc.expect_deny or sc.expect_silent or plugin == 'VtGate'
         undo = apply_setup(sc)
         try:
+            mark = len(lines)
             send_db()
             lines.append('ignored\t' + wire.enc(prefix)); pend.append(None)
             q = 'invoke\t%s\t%s\t%s\t%s\t%s\t%d\t%s' % (wire.enc(prefix), wire.enc_opt(mchan), wire.enc(plugin), wire.enc_list(cmd),
@@ -724,6 +768,29 @@ def explore(ctx, b, w, table, required, n_extra):
             Obs.execute = (lambda p, c, real=real, tk=target_key: True if (p, c) in WRAPPER_CMDS else (real if (p, c) == tk else False))
             before = base_snap[0] if sc.setup is None else snapshot(b)
             out = deliver(b, prefix, target, full)
+            if sc.wrapper == 'scheduled':
+                sched_out = classify(out)
+                if sched_out[0] == 'reply' and 'added' in sched_out[1]:
+                    if sc.setup[2]:
+                        u = user_by_name(b, 'vown'); u.removeCapability('owner'); ircdb.users.setUser(u)
+                        def restore(undo0=undo):
+                            u2 = user_by_name(b, 'vown'); u2.addCapability('owner'); ircdb.users.setUser(u2)
+                            undo0()
+                        undo = restore
+                        # the model is asked about the database as it is when the event fires
+                        del lines[mark:]; del pend[mark:]
+                        last_dump[0] = None
+                        send_db()
+                        lines.append('ignored\t' + wire.enc(prefix)); pend.append(None)
+                        before = snapshot(b)
+                    Clock.offset += 60
+                    Obs.gate = []; Obs.bodies = []
+                    b.schedule.run()
+                    wait_threads()
+                    out = bot.drain(b)
+                else:
+                    # scheduling itself was refused (the caller lacks scheduler.add): nothing was stored
+                    sc.kind = 'sched-refused'
             after = snapshot(b)
             gate_hit = [g for g in Obs.gate if g == target_key]
             other_targets = [g for g in Obs.gate if g != target_key and g not in WRAPPER_CMDS]
@@ -731,6 +798,8 @@ def explore(ctx, b, w, table, required, n_extra):
                        or (len(path) == 1 and (plugin, path + path) in Obs.bodies)
             cls = classify(out)
             changed = snap_diff(before, after)
+            if sc.wrapper == 'scheduled':
+                changed = [k for k in changed if k not in ('events', 'sched')]
         finally:
             undo()
         if changed:
@@ -781,6 +850,9 @@ def explore(ctx, b, w, table, required, n_extra):
                  impl=impl, oracle_ok=ok, oracle_msg=msg, tags=tags, kind=sc.kind)
         cases.append(c)
         DEBUG[id(c)] = [str(m).strip() for m in out]
+        if sc.kind == 'sched-refused':
+            c.impl = None       # the inner command was never stored: nothing to compare with the model
+            continue
         lines.append(q)
         def fill(o, ign, c=c, real=real, spec=sc.spec):
             if ign.startswith('1'):
@@ -804,6 +876,196 @@ def explore(ctx, b, w, table, required, n_extra):
                 return 'gate:allow|nocap:' + wire.dec(oc[1])
             return 'gate:allow|stopped'
         pend.append((c, fill))
+    # ================= configuration writes =================
+    registry = b.registry
+    cfgmod = sys.modules.get('Config.plugin') or sys.modules.get('supybot.plugins.Config.plugin')
+    CFG = [('supybot.nick', 'zz', 'global'), ('supybot.reply.whenAddressedBy.chars', '!', 'global'),
+           ('supybot.reply.whenAddressedBy.chars', '!', 'channel'), ('supybot.directories.data', '/tmp/vtx', 'global'),
+           ('supybot.directories.plugins', '/tmp/vtx', 'global'), ('supybot.commands.allowShell', 'True', 'global'),
+           ('supybot.capabilities', '-admin foo', 'global'), ('supybot.defaultIgnore', 'True', 'global'),
+           ('supybot.plugins.VtGate.mark', 'v', 'global'), ('supybot.plugins.VtGate.open', 'v', 'channel'),
+           ('supybot.plugins.VtGate.locked', 'v', 'channel'), ('supybot.reply.withNickPrefix', 'False', 'channel'),
+           ('supybot.plugins.VtGate.open', 'v', 'global'), ('supybot.capabilities.default', 'False', 'global')]
+    cfg_roles = ['owner', 'admin', 'chanop', 'plain', 'unreg', 'secure', 'ignored']
+    def group_of(name):
+        g = conf
+        for part in registry.split(name):
+            g = getattr(g, part) if g is conf else g.get(part)
+        return g
+    def non_settable(name):
+        parts = registry.split(name)
+        g = getattr(conf, parts[0]); out = []
+        for i, part in enumerate(parts[1:], 1):
+            g = g.get(part)
+            if not getattr(g, '_opSettable', True):
+                out.append(parts[:i + 1])
+        return out
+    if 'Config' in have:
+        for (name, value, kind) in CFG:
+            if name.startswith('supybot.plugins.VtGate') and 'VtGate' not in have:
+                continue
+            for role in cfg_roles:
+                for ch in ([CHAN, OTHERCHAN] if kind == 'channel' else [None]):
+                    form = 'char' if (len(cases) % 2 == 0) else 'private'
+                    prefix = ROLES[role]
+                    if kind == 'global':
+                        text = 'config %s %s' % (name, quote(value)); gname = name
+                    else:
+                        text = 'config channel %s %s %s' % (ch, name, quote(value)); gname = name + '.' + ch
+                    target, full, mchan = address(form, text)
+                    parts = registry.split(gname); partsl = registry.split(gname.lower())
+                    try:
+                        nons = non_settable(gname)
+                    except Exception:
+                        nons = non_settable(name)
+                    # oracle by construction
+                    readonly = (not conf.supybot.commands.allowShell()) and (name.startswith('supybot.directories') or name == 'supybot.commands.allowShell')
+                    may = (role == 'owner' and not readonly) or (role == 'chanop' and kind == 'channel' and ch == CHAN and not readonly
+                                                               and not name.endswith('locked'))
+                    silent = role == 'ignored'
+                    try:
+                        old = str(group_of(name)) if kind == 'global' else None
+                    except Exception:
+                        old = None
+                    send_db()
+                    lines.append('ignored\t' + wire.enc(prefix)); pend.append(None)
+                    Obs.execute = None
+                    before = snapshot(b)
+                    with contextlib.redirect_stdout(io.StringIO()):
+                        out = deliver(b, prefix, target, full)
+                    after = snapshot(b)
+                    changed = snap_diff(before, after)
+                    cls = classify(out)
+                    if cls[0] == 'silent': impl = 'silent'
+                    elif cls[0] == 'nocap': impl = 'nocap:' + cls[1]
+                    elif cls[0] == 'error' and 'not writeable' in cls[1]: impl = 'readOnly'
+                    elif cls[0] == 'reply' and 'The operation succeeded' in cls[1]: impl = 'pass'
+                    else: impl = 'other:' + cls[0]
+                    ok = True; msg = ''
+                    if silent and (out or changed):
+                        ok = False; msg = 'ignored caller %s wrote/was answered: %r changed=%r' % (prefix, [str(m).strip() for m in out], changed)
+                    elif not silent and not may and (changed or cls[0] not in ('nocap', 'error')):
+                        ok = False
+                        msg = '%s (%s) sets %s via %r: must be refused (%s); but state changed=%r, reply=%r' % (
+                            role, prefix, gname, full, 'read-only name' if readonly else 'caller lacks the capability for this name', changed, cls)
+                    c = Case({'op': 'config', 'name': gname, 'role': role, 'prefix': prefix, 'target': target, 'text': full},
+                             impl=impl, oracle_ok=ok, oracle_msg=msg, kind='config',
+                             tags=['config', 'cfg:' + impl.split(':')[0], 'role:' + role] + (['oracle:deny'] if not may and not silent else []))
+                    cases.append(c)
+                    lines.append('cfg\t%s\t%s\t%d\t%s\t%s\t%s' % (wire.enc(prefix), wire.enc_opt(mchan), 1 if conf.supybot.commands.allowShell() else 0,
+                                                                  wire.enc_list(parts), wire.enc_list(partsl),
+                                                                  ','.join('.'.join(wire.enc(x) for x in pth) for pth in nons) or '-'))
+                    def fillc(o, ign):
+                        if ign.startswith('1') or ign.startswith('crash'):
+                            return 'silent'
+                        f = o.split('\t')
+                        if f[0] == 'noCapability':
+                            return 'nocap:' + wire.dec(f[1])
+                        return f[0]
+                    pend.append((c, fillc))
+                    # put things back
+                    if changed:
+                        try:
+                            if kind == 'global' and old is not None:
+                                group_of(name).set(old) if old.strip() else group_of(name).setValue(type(group_of(name)())())
+                            elif kind == 'channel':
+                                group_of(name).get(ch).set(str(group_of(name)))
+                                try:
+                                    group_of(name).get(':test').get(ch).set(str(group_of(name)))
+                                except Exception:
+                                    pass
+                        except Exception:
+                            pass
+                        if name == 'supybot.capabilities':
+                            conf.supybot.capabilities.setValue(list(DEFAULT_CAPS))
+
+    # ================= supybot.capabilities is assigned =================
+    VOC = ['owner', '-owner', 'Owner', '-OWNER', 'admin', '-admin', 'foo', '-foo', CHAN + ',op', CHAN + ',-op', 'trusted', '-trusted', 'scheduler.add']
+    for i in range(400 if ctx.thorough else 60):
+        words = [r.choice(VOC) for _ in range(r.randint(0, 5))]
+        try:
+            with contextlib.redirect_stdout(io.StringIO()):
+                conf.supybot.capabilities.set(' '.join(words))
+            got = sorted(set.__iter__(conf.supybot.capabilities()))
+            impl = 'ok\t' + wire.enc_list(got)
+        except Exception as e:
+            got = None
+            impl = 'crash'
+        ok = True; msg = ''
+        if got is not None:
+            if '-owner' not in got or 'owner' in got:
+                ok = False; msg = 'supybot.capabilities set to %r gives %r: -owner missing (or owner present)' % (' '.join(words), got)
+            elif ircdb.checkCapability(ROLES['unreg'], 'owner') or not ircdb.checkCapability(ROLES['unreg'], '-owner'):
+                ok = False; msg = 'after supybot.capabilities = %r an unregistered caller holds owner' % (' '.join(words),)
+            elif i % 10 == 0 and 'Owner' in have:
+                send_db()
+                Obs.execute = None
+                out = deliver(b, ROLES['unreg'], CHAN, '@flush')
+                cls = classify(out)
+                if ('Owner', ('flush',)) in Obs.bodies or cls[0] != 'nocap':
+                    ok = False; msg = 'after supybot.capabilities = %r an unregistered caller ran Owner.flush: %r' % (' '.join(words), cls)
+        c = Case({'op': 'setdefaults', 'value': ' '.join(words)}, impl=impl, oracle_ok=ok, oracle_msg=msg, kind='setdefaults',
+                 tags=['setdefaults'] + (['sd:owner-given'] if any(w.lower() == 'owner' for w in words) else []) +
+                      (['sd:antiowner-given'] if any(w.lower() == '-owner' for w in words) else ['sd:antiowner-readded']))
+        cases.append(c)
+        lines.append('setdefaults\t0\t' + wire.enc_list(words))
+        def fills(o, ign):
+            f = o.split('\t')
+            if f[0] != 'ok':
+                return 'crash'
+            return 'ok\t' + wire.enc_list(sorted(wire.dec_list(f[1])))
+        pend.append((c, fills))
+        conf.supybot.capabilities.setValue(list(DEFAULT_CAPS))
+
+    # ================= who is ignored =================
+    if 'VtGate' in have:
+        def mkuser(name, hostmask, caps, **kw):
+            u = ircdb.users.newUser(); u.name = name
+            for cp in caps: u.addCapability(cp)
+            u.addHostmask(hostmask)
+            for k2, v2 in kw.items(): setattr(u, k2, v2)
+            ircdb.users.setUser(u)
+        mkuser('vtrust', 'tru!t@trust.host', ['trusted'], ignore=True)
+        mkuser('vtrust2', 'igd!t@igd.host', ['trusted'])          # trusted, but matched by the ignores db entry igd!*@igd.host
+        mkuser('vplainig', 'igd!p@igd.host2', [])
+        now0 = time.time()
+        ircdb.ignores.add('fut!*@*', int(now0) + 5000)
+        IGN = [('unreg', ROLES['unreg'], None, False), ('unreg-defaultIgnore', ROLES['unreg'], 'defaultIgnore', True),
+               ('plain-defaultIgnore', ROLES['plain'], 'defaultIgnore', False), ('ignored-flag-owner', ROLES['ignored'], None, True),
+               ('ignoredb', ROLES['ignoredb'], None, True), ('expired-entry', 'old!x@old.host', None, False),
+               ('future-entry', 'fut!x@fut.host', None, True), ('future-entry-after-expiry', 'fut!x@fut.host', 'later', False),
+               ('trusted-with-flag', 'tru!t@trust.host', None, True), ('trusted-in-ignores-db', 'igd!t@igd.host', None, False),
+               ('owner', ROLES['owner'], None, False), ('secure-wrong-host', ROLES['secure'], None, False)]
+        for label, prefix, special, want_silent in IGN:
+            for form in (FORMS if ctx.thorough else ['char', 'private']):
+                if special == 'defaultIgnore':
+                    conf.supybot.defaultIgnore.setValue(True)
+                if special == 'later':
+                    Clock.offset += 6000
+                try:
+                    target, full, mchan = address(form, 'vtfree')
+                    last_dump[0] = None
+                    send_db()
+                    Obs.execute = None
+                    before = snapshot(b)
+                    out = deliver(b, prefix, target, full)
+                    changed = snap_diff(before, snapshot(b))
+                    ran = ('VtGate', ('vtfree',)) in Obs.bodies
+                finally:
+                    if special == 'defaultIgnore':
+                        conf.supybot.defaultIgnore.setValue(False)
+                impl = 'silent' if (not out and not ran) else ('ran' if ran else 'answered')
+                ok = True; msg = ''
+                if want_silent and (out or ran or [k2 for k2 in changed if k2 != 'ignores']):
+                    ok = False; msg = 'ignored caller %s (%s): expected neither effect nor reply, got %r ran=%r changed=%r' % (prefix, label, [str(m).strip() for m in out], ran, changed)
+                c = Case({'op': 'ignore', 'label': label, 'prefix': prefix, 'target': target, 'text': full}, impl=impl, oracle_ok=ok, oracle_msg=msg,
+                         kind='ignore', tags=['ignore', 'ign:' + label] + (['oracle:silent'] if want_silent else []))
+                cases.append(c)
+                lines.append('ignored\t' + wire.enc(prefix))
+                pend.append((c, lambda o, ign: 'silent' if (o.startswith('1') or o.startswith('crash')) else 'ran'))
+
+    time.time = _real_time
+    Clock.offset = 0.0
     return cases, lines, pend
 
 def reconcile(c):
